@@ -122,7 +122,7 @@ def ctype_of(q):
     base, n = split(q)
     if base in SCALARS:
         return SCALARS[base] + '*' * n
-    if '(' in base and 'lambda at' not in base:
+    if '(' in base.split('<')[0] and 'lambda at' not in base:
         raise Unsupported('function type ' + q)
     return 'struct ' + cname(base) + '*' * n
 
